@@ -321,3 +321,24 @@ Theorem C17_verdict_sound_dir_partial :
     deletable_d (embed p) [vd_flagged vd].
 Proof. exact verdict_sound_dir_partial. Qed.
 Print Assumptions C17_verdict_sound_dir_partial.
+
+(* What findGuardLine finds, and why the exemption of the guard is right for a file that is
+   read on its own (closed world): make takes the guard, the body is active, the table is empty.
+   In the whole-package scan other lines come first, and C17_conditional_line_silent_real_conditions
+   with g = None says the model exempts nothing there (seed C17-r5m1 broke exactly that). *)
+Theorem C17_find_guard_shape :
+  forall (p : dprogram) (g : nat),
+    find_guard p = Some g ->
+    exists pre l x post,
+      p = pre ++ l :: post /\ length pre = g /\ dl_body l = DIf true (DCDefined x) /\
+      guard_name_ok x = true /\ Forall (fun l0 => dl_body l0 = DComment) pre.
+Proof. exact find_guard_shape. Qed.
+Print Assumptions C17_find_guard_shape.
+
+Theorem C17_guard_taken_when_read_alone :
+  forall (p : dprogram) (g : nat) (fuel : nat),
+    find_guard p = Some g ->
+    fold_left (exec_dline fuel) (to_spec_d (firstn (S g) p)) dinit
+    = mkD empty_store [mkFrame true true false] false.
+Proof. exact guard_taken_when_read_alone. Qed.
+Print Assumptions C17_guard_taken_when_read_alone.
